@@ -86,6 +86,11 @@ def parse_url(url: str) -> ParsedURL:
         bracketed, _, after = hostport.partition("]")
         if not bracketed.startswith("[") or (after and not after.startswith(":")):
             raise ValueError(f"Malformed IPv6 host: {url}")
+        # What is in the brackets has to be an IPv6 address: urlparse() also lets
+        # "[v1.ab]" through (RFC 3986 IPvFuture), which nothing can connect to and
+        # which would turn into the DNS name "v1.ab" once its brackets are dropped
+        if ":" not in parsed.hostname:
+            raise ValueError(f"Unsupported IP literal (not an IPv6 address): {url}")
 
     # Reject userinfo (per Gemini spec: userinfo portions are forbidden)
     # (":@host" has the user-info ":" although both parts of it are empty)
